@@ -392,6 +392,7 @@ type LoopSpec struct {
 	Invariants []*Clause
 	Decreases  *Clause
 	FrameEntry bool // `loop k: frame entry`
+	FrameMod   bool // `loop k: frame modifies`: like frame entry, except for the objects of the function's modifies clause
 }
 
 type Let struct {
@@ -604,10 +605,14 @@ func parseContractFile(path string) (*ContractFile, error) {
 			}
 			if k2 == "frame" {
 				// loop N: frame entry
-				if strings.TrimSpace(r2) != "entry" {
-					return nil, fmt.Errorf("%s:%d: want `loop N: frame entry`", path, rc.line)
+				switch strings.TrimSpace(r2) {
+				case "entry":
+					ls.FrameEntry = true
+				case "modifies":
+					ls.FrameEntry, ls.FrameMod = true, true
+				default:
+					return nil, fmt.Errorf("%s:%d: want `loop N: frame entry` or `loop N: frame modifies`", path, rc.line)
 				}
-				ls.FrameEntry = true
 				continue
 			}
 			c, err := mkClause(k2, r2, rc.line)
